@@ -20,7 +20,7 @@ var (
 )
 
 // Names of the available RSA fixtures.
-var Names = []string{"rsa1024", "rsa2047", "rsa2048", "rsa2048b", "rsa2049", "rsa2055", "rsa3072", "rsa4096"}
+var Names = []string{"rsa1024", "rsa2047", "rsa2048", "rsa2048b", "rsa2049", "rsa2055", "rsa3072", "rsa4096", "rsa8200"}
 
 // RSA returns the named fixture key (e.g. "rsa2048"). The returned key is
 // shared; callers must not modify it.
